@@ -4,6 +4,7 @@ import Driver.Range
 import Driver.Prefix
 import Driver.Dispatch
 import Driver.Plugins
+import Driver.File
 import Std.Data.HashMap
 open Drv
 
@@ -52,4 +53,5 @@ def main (args : List String) : IO UInt32 := do
   | ["dispatch4"] => run ⟨(), fun _ op res => ((), Dispatch.step4 op res)⟩; return 0
   | ["dispatch6"] => run ⟨(), fun _ op res => ((), Dispatch.step6 op res)⟩; return 0
   | ["plugins"] => run ⟨(), fun _ op res => ((), Plugins.step op res)⟩; return 0
+  | ["file"] => run ⟨({} : File.St), File.step⟩; return 0
   | _ => IO.eprintln "usage: drv <engine> < trace"; return 2
